@@ -23,6 +23,9 @@ func (p *PanicInfo) Signature() string { return "panic|" + p.Func + "|" + p.Clas
 // Sentinel values a harness may panic with on purpose.
 type WorkBudgetExceeded struct{ Msg string }
 
+// Error makes the sentinel survive recover()+state.(error) conversions inside the library.
+func (w WorkBudgetExceeded) Error() string { return w.Msg }
+
 func classify(v interface{}) string {
 	var s string
 	switch t := v.(type) {
